@@ -2571,9 +2571,18 @@ static int cfg_opt_print_pff_indent(cfg_opt_t *opt, FILE *fp,
 		/* a one-line annotation that contains the end-of-comment
 		 * marker (it came from a '#' or '//' comment) goes back
 		 * out as a '#' comment */
-		if (strstr(opt->comment, "*/") && !strchr(opt->comment, '\n'))
-			fprintf(fp, "# %s\n", opt->comment);
-		else
+		if (strstr(opt->comment, "*/")) {
+			const char *line = opt->comment;
+
+			while (line) {
+				const char *nl = strchr(line, '\n');
+
+				fprintf(fp, "# %.*s\n", nl ? (int)(nl - line) : (int)strlen(line), line);
+				line = nl ? nl + 1 : NULL;
+				if (line)
+					cfg_indent(fp, indent);
+			}
+		} else
 			fprintf(fp, "/* %s */\n", opt->comment);
 	}
 
